@@ -9,6 +9,34 @@ From Coq Require Import ZArith.
 Lemma sweep_exact_ok : stmt_sweep_exact.
 Proof. unfold stmt_sweep_exact. intros. reflexivity. Qed.
 
+Lemma not_before_ttl_ok : stmt_not_before_ttl.
+Proof.
+  intros st nows. revert st. induction nows as [|now nows IH]; intros st n ks vs s Hs Hc; [exact Hs|].
+  unfold f_sweeps. cbn [fold_left]. apply IH; [|destruct Hc as [Hc|Hc]; [now left | right; now inversion Hc]].
+  cbn [f_sweep f_series]. rewrite Hs.
+  destruct Hc as [Hc|Hc].
+  - rewrite Hc. reflexivity.
+  - inversion Hc as [|? ? Hn _]; subst.
+    destruct (fv_last s + fv_ttl s <? now)%Z eqn:E; [apply Z.ltb_lt in E; lia|].
+    now rewrite andb_false_r.
+Qed.
+
+Lemma sweeps_only_remove_ok : stmt_sweeps_only_remove.
+Proof.
+  intros st nows. revert st. induction nows as [|now nows IH]; intros st; [split; auto|].
+  unfold f_sweeps. cbn [fold_left]. destruct (IH (f_sweep st now)) as [H1 H2]. split; [exact H1|].
+  intros n ks vs Hn. apply H2. cbn [f_sweep f_series]. now rewrite Hn.
+Qed.
+
+Lemma gone_after_ttl_ok : stmt_gone_after_ttl.
+Proof.
+  intros st now later n ks vs s Hs Ht Hl. unfold f_sweeps. cbn [fold_left].
+  apply (sweeps_only_remove_ok (f_sweep st now) later).
+  cbn [f_sweep f_series]. rewrite Hs.
+  destruct (fv_ttl s =? 0)%Z eqn:E0; [apply Z.eqb_eq in E0; contradiction|].
+  destruct (fv_last s + fv_ttl s <? now)%Z eqn:E; [reflexivity | apply Z.ltb_ge in E; lia].
+Qed.
+
 Lemma upd3_same {B} (f : bytes -> list bytes -> list bytes -> B) k ks vs v : upd3 f k ks vs v k ks vs = v.
 Proof. unfold upd3. now rewrite bytes_eqb_refl, !lbe_refl. Qed.
 
